@@ -517,4 +517,74 @@ pub mod verif_task {
             }
         }
     }
+
+    /// An output with a destructor: every drop is counted, so that the
+    /// harness can tell whether the output of a task was released exactly
+    /// once.
+    pub struct VOut {
+        value: u64,
+        drops: std::sync::Arc<std::sync::atomic::AtomicUsize>,
+    }
+
+    impl Drop for VOut {
+        fn drop(&mut self) {
+            self.drops
+                .fetch_add(1, std::sync::atomic::Ordering::SeqCst);
+        }
+    }
+
+    pub struct VPromiseOut(Promise<VOut>);
+
+    /// Same as `spawn`, with an output that counts its drops in `drops`.
+    pub fn spawn_out<F>(
+        future: F,
+        tag: usize,
+        drops: std::sync::Arc<std::sync::atomic::AtomicUsize>,
+    ) -> (VPromiseOut, VCancel)
+    where
+        F: Future<Output = u64> + Send + 'static,
+    {
+        let future = async move {
+            let value = future.await;
+
+            VOut { value, drops }
+        };
+        let (promise, runnable, cancel) = super::spawn(future, schedule, tag);
+        schedule(runnable, tag);
+
+        (VPromiseOut(promise), VCancel(cancel))
+    }
+
+    /// Same as `spawn_and_forget`, with an output that counts its drops in
+    /// `drops`.
+    pub fn spawn_and_forget_out<F>(
+        future: F,
+        tag: usize,
+        drops: std::sync::Arc<std::sync::atomic::AtomicUsize>,
+    ) -> VCancel
+    where
+        F: Future<Output = u64> + Send + 'static,
+    {
+        let future = async move {
+            let value = future.await;
+
+            VOut { value, drops }
+        };
+        let (runnable, cancel) = super::spawn_and_forget(future, schedule, tag);
+        schedule(runnable, tag);
+
+        VCancel(cancel)
+    }
+
+    impl VPromiseOut {
+        /// Polls the promise; an output that is handed over is dropped here
+        /// (one counted drop).
+        pub fn poll(&self) -> VStage {
+            match self.0.poll() {
+                Stage::Ready(v) => VStage::Ready(v.value),
+                Stage::Pending => VStage::Pending,
+                Stage::Cancelled => VStage::Cancelled,
+            }
+        }
+    }
 }
